@@ -2,6 +2,7 @@ package main
 
 import (
 	"fmt"
+	"path/filepath"
 	"go/constant"
 	"go/token"
 	"go/types"
@@ -367,6 +368,15 @@ func uint64FromFloat(f float64, w int) uint64 {
 // exec executes one non-control instruction.
 func (fr *Frame) exec(in ssa.Instruction) {
 	s := fr.st
+	defer func() {
+		if r := recover(); r != nil {
+			if u, ok := r.(unsupported); ok && !strings.Contains(u.msg, " [at ") {
+				pos := s.eng.prog.Fset.Position(in.Pos())
+				panic(unsupported{fmt.Sprintf("%s [at %s: %s, %s:%d]", u.msg, shortFn(fr.fn), in.String(), filepath.Base(pos.Filename), pos.Line)})
+			}
+			panic(r)
+		}
+	}()
 	switch x := in.(type) {
 	case *ssa.DebugRef:
 	case *ssa.Alloc:
